@@ -110,8 +110,9 @@ os.makedirs(out, exist_ok=True)
 shutil.copy(patch, os.path.join(out, "patch.diff"))
 if os.path.isfile(demo):
     shutil.copy(demo, os.path.join(out, os.path.basename(demo)))
-notes = os.path.join(seed, "notes.md")
-if os.path.exists(notes):
-    shutil.copy(notes, os.path.join(out, "agent_notes.md"))
+for notes in (os.path.join(seed, "notes%s.md" % n), os.path.join(seed, "notes.md")):
+    if os.path.exists(notes):
+        shutil.copy(notes, os.path.join(out, "agent_notes.md"))
+        break
 res["ran_at"] = time.strftime("%Y-%m-%dT%H:%M:%S")
 json.dump(res, open(os.path.join(out, "meta.json"), "w"), indent=1)
